@@ -18,11 +18,14 @@ import vlib, driver
 PROP = "C18"
 VERIF = "/verif"
 BUILD = os.path.join(VERIF, "build", "c18")
-REPLAYS = os.path.join(VERIF, "replays", PROP)
+REPLAYS = os.path.join(driver.REPLAY_DIR, PROP)   # VERIF_REPLAY_DIR keeps scratch runs out of /verif/replays
 
 FUNCS = ["memset_s", "memzero_s", "memset16_s", "memset32_s", "memzero16_s", "memzero32_s", "strzero_s"]
 UNIT = {"memset_s": 1, "memzero_s": 1, "memset16_s": 2, "memset32_s": 4, "memzero16_s": 2, "memzero32_s": 4, "strzero_s": 1}
-STORAGES = ["stack", "heap", "static"]
+STORAGES = ["stack", "heap", "static", "stack-noescape"]   # index = vparam.storage in spy.c
+ESCAPING = ["stack", "heap", "static"]   # the victim hands the buffer address to the spy TU before erasing
+NOESC = "stack-noescape"                 # the address goes to the erase function only; the spy finds the dead frame by a stack scan
+NOESC_MIN = 16                           # the scan recognises runs of >= 8 pattern bytes; targets are at least one 16-byte block
 SHAPES = ["direct", "helper", "struct"]
 
 # library sources compiled into / linked with every program (relative to <root>/src)
@@ -66,12 +69,18 @@ def gen_bytes(rng, cls):
 
 def gen_program(rng, slack):
     """one client program: for every (erase function x storage x size class) one
-    victim and its plain-memset twin (7 x 3 x 2 = 42 victims + 42 controls). Returns the list of victim parameter dicts."""
+    victim and its plain-memset twin: 7 x 3 x 2 = 42 address-escaping victims + 42 controls, then (ids after them, so
+    the first 84 are what earlier versions generated from the same seed) 7 x 2 = 14 non-escaping stack victims + 14
+    controls. Returns the list of victim parameter dicts."""
     vs = []
-    for fn in FUNCS:
-        for st, cls in [(st, cls) for st in STORAGES for cls in ("small", "large")]:
+    cells = [(fn, st, cls) for fn in FUNCS for st in ESCAPING for cls in ("small", "large")]
+    cells += [(fn, NOESC, cls) for fn in FUNCS for cls in ("small", "large")]
+    for fn, st, cls in cells:
+        if True:
             unit = UNIT[fn]
             nbytes = gen_bytes(rng, cls)
+            if st == NOESC and nbytes < NOESC_MIN:
+                nbytes += NOESC_MIN
             count = max(1, nbytes // unit)
             nbytes = count * unit
             align = rng.randrange(0, 16, unit)
@@ -93,7 +102,7 @@ def gen_program(rng, slack):
                 dmax = nbytes
             length = nbytes
             span = nbytes
-            if fn == "strzero_s":
+            if fn == "strzero_s" and st != NOESC:   # non-escaping targets hold the NUL-free pattern throughout
                 if rng.random() < 0.5:
                     nulpos = rng.randrange(0, nbytes)
                     if not slack:
@@ -134,9 +143,14 @@ def client_source(vs):
     o = ["/* generated by props/c18/run.py -- do not edit */",
          "#include <stdlib.h>", "#include <string.h>", "#include <stdint.h>",
          '#include "safe_mem_lib.h"', '#include "safe_str_lib.h"',
-         "extern void spy_fill(int id, void *buf);", ""]
+         "extern void spy_fill(int id, void *buf);",
+         "/* static storage of the spy TU, set per victim at run time: the 16-byte pattern, an index salt, the result sink */",
+         "extern volatile unsigned char c18_magic[16];", "extern volatile unsigned c18_salt, c18_sink;", ""]
     for v in vs:
         k, T, L, st, sh = v["id"], v["total"], v["lead"], v["storage"], v["shape"]
+        if st == NOESC:
+            o += noescape_victim(v)
+            continue
         o.append("/* victim %d: %s%s, %s, shape %s, %d bytes at +%d of %d */" %
                  (k, v["fn"], " CONTROL(memset)" if v["control"] else "", st, sh, v["nbytes"], L, T))
         if sh == "struct":
@@ -185,6 +199,34 @@ def client_source(vs):
         o.append("")
     o.append("int (*const c18_victims[])(void) = {%s};" % ", ".join("v%d" % v["id"] for v in vs))
     return "\n".join(o) + "\n"
+
+
+def noescape_victim(v):
+    """a dead local whose address never escapes: filled from the run-time pattern (volatile source in the spy's static
+    storage, so nothing is constant-folded and no 16-byte copy of the pattern exists outside the buffer), read back at
+    run-time dependent indices (so the fill is not dead and cannot be forwarded), erased as the last action. The
+    address is used for nothing but the fill/read loops and the erase call."""
+    k, T, L, sh, N = v["id"], v["total"], v["lead"], v["shape"], v["nbytes"]
+    o = ["/* victim %d: %s%s, %s, shape %s, %d bytes at +%d of %d; address never leaves this function */" %
+         (k, v["fn"], " CONTROL(memset)" if v["control"] else "", v["storage"], sh, N, L, T)]
+    if sh == "struct":
+        o.append("struct S%d { unsigned char a[%d]; } __attribute__((aligned(16)));" % (k, T))
+        decl, arr = "struct S%d s;" % k, "s.a"
+    else:
+        decl, arr = "unsigned char a[%d] __attribute__((aligned(16)));" % T, "a"
+    if sh == "helper":
+        o.append("static int wipe%d(unsigned char *p) { return %s; }" % (k, erase_expr(v, "p")))
+    tgt = "%s + %d" % (arr, L)
+    call = ("wipe%d(%s)" % (k, tgt)) if sh == "helper" else erase_expr(v, tgt)
+    o += ["int v%d(void) {" % k,
+          "    %s unsigned i, j, h = 0;" % decl,
+          "    for (i = 0; i < %du; i++) %s[%d + i] = c18_magic[i & 15];" % (N, arr, L),
+          "    j = c18_salt;",
+          "    for (i = 0; i < %du; i++) { j = (j * 5u + 3u) %% %du; h = h * 31u + %s[%d + j]; }" % (N, N, arr, L),
+          "    c18_sink = h;",
+          "    return %s;" % call,
+          "}", ""]
+    return o
 
 
 def params_header(vs):
@@ -249,10 +291,10 @@ def build_and_run_program(c, vs, rtseed, incflags, libobjs, pd):
     r = run([exe, str(rtseed)], timeout=60, env=env)
     res = {}
     for line in r.stdout.splitlines():
-        m = re.match(r"V (\d+) rc=(-?\d+) bad=(\d+) residual=(\d+) outside=(\d+) firstbad=(-?\d+) firstout=(-?\d+)", line)
+        m = re.match(r"V (\d+) rc=(-?\d+) bad=(\d+) residual=(\d+) outside=(\d+) firstbad=(-?\d+) firstout=(-?\d+) used=(\d+)", line)
         if m:
             g = [int(x) for x in m.groups()]
-            res[g[0]] = dict(rc=g[1], bad=g[2], residual=g[3], outside=g[4], firstbad=g[5], firstout=g[6])
+            res[g[0]] = dict(rc=g[1], bad=g[2], residual=g[3], outside=g[4], firstbad=g[5], firstout=g[6], used=g[7])
     if r.returncode != 0 or len(res) != len(vs) or ("DONE %d" % len(vs)) not in r.stdout:
         raise Broken("program %s did not run to completion (rc=%s): %s" % (exe, r.returncode, (r.stdout + r.stderr)[-500:]))
     return res
@@ -275,10 +317,21 @@ def judge(c, vs, res):
         channel_ok = cr["outside"] == 0 and cr["rc"] == 0 and (cr["bad"] == cr["residual"])
         if c["opt"] == "-O0" and cr["bad"] != 0:
             channel_ok = False
+        if v["storage"] == NOESC:
+            # stack scan: both twins must really have filled and read their buffer (checksum seen by the spy)
+            channel_ok = channel_ok and cr["used"] == 1 and r["used"] == 1
         if not channel_ok:
             verdict["cls"] = "unobservable"
         elif r["rc"] != 0:
             verdict["cls"] = "rc-nonzero"  # property speaks about successful calls only
+        elif v["storage"] == NOESC and r["bad"] > 0:
+            verdict["cls"] = "violation"
+            verdict["key"] = "%s:%s:not-erased:%s" % (PROP, v["fn"], v["storage"])
+            verdict["detail"] = ("%d bytes of the secret pattern (runs of >= 8 consecutive pattern bytes, first run %d bytes below the "
+                                 "caller's frame) are still in the dead stack frame after %s returned 0; the %d-byte local buffer (object "
+                                 "offset %d) was filled and read at run time, its address was passed to %s only; found by a scan of the "
+                                 "4096 bytes below the caller, config %s; control memset residual=%d" %
+                                 (r["bad"], -r["firstbad"], v["fn"], v["nbytes"], v["lead"], v["fn"], cfg_name(c), cr["residual"]))
         elif r["bad"] > 0:
             verdict["cls"] = "violation"
             verdict["key"] = "%s:%s:not-erased:%s" % (PROP, v["fn"], v["storage"])
